@@ -42,6 +42,7 @@ type SymDisk struct {
 	cur   *Term
 	size  *Term
 	reads []*Term
+	written []*Term // block addresses written since the disk was created
 }
 
 type World struct {
@@ -142,6 +143,7 @@ func (e *Engine) blockTerm(v SliceV) *Term {
 }
 
 func (e *Engine) writeBlock(d *SymDisk, a *Term, v SliceV) {
+	d.written = append(d.written, a)
 	d.cur = Store(d.cur, a, e.blockTerm(v))
 }
 
@@ -454,6 +456,17 @@ func rtStubs(m map[string]stubFn) {
 		n := e.uniqueValue(a[1].(*Term))
 		d.cur = Store(d.cur, n, ConstArr(8, Const(8, 0)))
 		return nil
+	}
+	// Unchanged: block blk has not been written since the disk was created (its logical contents are
+	// those of the initial state)
+	m[D+"Unchanged"] = func(e *Engine, fn *ssa.Function, a []Value) Value {
+		d := e.diskFor(a[0])
+		blk := a[1].(*Term)
+		r := BoolC(true)
+		for _, k := range d.written {
+			r = And(r, Not(Cmp("=", blk, k)))
+		}
+		return r
 	}
 	// Init reads the initial logical block
 	m[D+"Init"] = func(e *Engine, fn *ssa.Function, a []Value) Value {
